@@ -23,6 +23,7 @@ EXPLANATION = (
     "restoring swap_logger(previous) as a cleanup before the test runs; swap_logger is the only writer of the "
     "default logger."
     "  C13.attach is included: the serializer must travel with the message on every path of Message.write / MessageType.log / Action._start / finish, or the message is never validated."
+    "  C03.failfields (the failed end message carries the status / exception / reason computed by finish over the extractor's fields, decided on the ordered layers of the dict construction) is part of this property."
 )
 RULE = "obligation = rule instance bound to a constant / loop / call site of _validation.py, _output.py, testing.py; non-trivial = expressions or CFG paths examined"
 ASSUMPTIONS = ["what each user-supplied validator accepts is not decided", "unittest runs registered cleanups for pass, fail, error and skip"]
